@@ -3,6 +3,7 @@ from __future__ import annotations
 
 import re
 import warnings
+from collections import Counter
 from datetime import date
 from decimal import Decimal
 from fractions import Fraction
@@ -701,6 +702,56 @@ def run(ctx: Ctx):
         t = well_paren(gen_tree(rng, rng.randrange(1, maxd + 1), fids))
         check_tree(ctx, real, t, fmap, req, out)
     ctx.correspond(f"random expression trees, depth <= {maxd}", req, out)
+
+    # --- reads that fail must not influence later reads of the same table (one TableFormulas object) -------
+    N = real.N
+
+    def refnode(r, c):
+        n = N(AST_node_type="CELL_REFERENCE_NODE")
+        n.AST_row.row, n.AST_row.absolute = r, False
+        n.AST_column.column, n.AST_column.absolute = c, False
+        return n
+
+    def num(v):
+        return N(AST_node_type="NUMBER_NODE", AST_number_node_number=float(v), AST_number_node_decimal_low=v,
+                 AST_number_node_decimal_high=MAGIC)
+    bads = {  # stored formulas that are not well-formed: the read raises, some with operands already on the stack
+        "reference above the table after an operand": [num(10), refnode(-99, 0), N(AST_node_type="ADDITION_NODE")],
+        "reference left of the table inside a product": [num(10), refnode(0, -99), num(2), N(AST_node_type="MULTIPLICATION_NODE"),
+                                                          N(AST_node_type="ADDITION_NODE")],
+        "reference above the table alone": [refnode(-99, 0)],
+        "operator on an empty stack": [N(AST_node_type="ADDITION_NODE")],
+        "operator with one operand": [num(7), N(AST_node_type="SUBTRACTION_NODE")],
+    }
+    nbad = Counter()
+    for i in range(150 if ctx.quick else 3000):
+        t = well_paren(gen_tree(rng, rng.randrange(1, 5), fids))
+        if tree_has_known_bad(t):
+            continue
+        nodes, words = [], []
+        compile_tree(real, t, nodes, words)
+        try:
+            before = real.render(nodes, *HOST)
+        except Exception:  # noqa: BLE001  (reported by check_tree above)
+            continue
+        for name, bad in bads.items():
+            try:
+                real.render(bad, *HOST)
+                nbad[name + ": returned"] += 1
+            except Exception as e:  # noqa: BLE001
+                nbad[name + ": " + exc_name(e)] += 1
+            try:
+                after = real.render(nodes, *HOST)
+            except Exception as e:  # noqa: BLE001
+                after = "raises " + exc_name(e)
+            if after != before:
+                report(ctx, "formula-text-depends-on-earlier-failed-read",
+                       f"after a failed read ({name}) the same stored formula reads {after[:80]!r} instead of {before[:80]!r}",
+                       {"tree": t, "failed_read": name})
+                real = Real()
+                break
+    ctx.count("well-formed formulas re-read after failed reads of the same table (text must not change)", sum(nbad.values()))
+    ctx.extra["failed_read_outcomes"] = dict(nbad)
 
     # --- reference texts printed by the REAL node_to_ref (C09's documents): nameSafe as stated, read back as one name ---
     from checks import c09
